@@ -3,6 +3,7 @@ import PeptVerif.Model.ModDict
 import PeptVerif.Lemmas.AnnotEq
 import PeptVerif.Lemmas.ModDict
 import PeptVerif.Lemmas.DecimalKey
+import PeptVerif.Lemmas.AnnotCanon
 /-!
 # C20 - modification dictionaries and annotation copies reconstruct the same peptide; equality laws
 
@@ -52,6 +53,12 @@ example : annEq exA exB = true ∧ annEq exB exA = true ∧ exA ≠ exB := by de
 /-- `a == b` iff residues and charge agree and every position carries equal multisets (declarative form of the
 eleven sequential tests of `__eq__`, with the key-union loop over internal mods replaced by "for every index") -/
 theorem eq_iff_equiv (a b : Annotation) : annEq a b = true ↔ AnnEquiv a b := annEq_iff a b
+
+/-- `a == b` iff the canonical forms are equal. `canon` (Lemmas/AnnotCanon.lean) keeps residues and charge and
+replaces every mod list by the *multiset* of its canonical `(valKey, multiplier)` keys (`Multiset` = lists up to
+reordering), the internal dict by the function index ↦ multiset (None for a missing index), and the interval
+list by the multiset of `(start, end, ambiguous, multiset of keys)` -/
+theorem eq_iff_canon (a b : Annotation) : annEq a b = true ↔ canon a = canon b := annEq_iff_canon a b
 
 /-- two mod lists are equal iff their multisets of (value as Python compares it, multiplier) keys are equal:
 `modKey` is the canonical form of one mod (an int and a float with the same decimal value have the same key) -/
